@@ -112,6 +112,9 @@ type Plan struct {
 	// the released goroutine trees then run truly concurrently until each parks
 	// again (C18, race detector builds).
 	Burst bool `json:"burst,omitempty"`
+	// FreeSteps > 0: free-running run (C18): that many Converge calls per task
+	// at most, nothing parks, the Go scheduler decides the interleaving.
+	FreeSteps int `json:"free_steps,omitempty"`
 	// ExpectSem: the fault-free run\'s semantic state hash (retry oracle).
 	ExpectSem string `json:"expect_sem,omitempty"`
 }
